@@ -17,7 +17,7 @@ from ..world import World
 
 ID = "C11"
 LEVEL = "exploration"
-RULE = ("scenario = sslopt {cert_reqs absent/CERT_NONE/CERT_REQUIRED/CERT_OPTIONAL (for a client the same as REQUIRED), check_hostname absent/True/False, ca_certs, "
+RULE = ("scenario = sslopt {cert_reqs absent/CERT_NONE/CERT_REQUIRED/CERT_OPTIONAL (for a client the same as REQUIRED), check_hostname absent/True/False, unset keys left out or given as None, ca_certs, "
         "ca_cert_path, custom context, server_hostname} x WEBSOCKET_CLIENT_CA_BUNDLE {unset, file, directory} x server "
         "certificate {issued by the sim CA / by a foreign CA / self-signed} x requested name {matching, other, "
         "wildcard, IP} x {direct, HTTP CONNECT tunnel} x scheme {ws, wss}.  Oracle = independent predicate from the "
